@@ -43,6 +43,9 @@ def obligations(tier):
     # the same definitions over the buckets of a collapsing timeframe that is fed live (one raw candle per append)
     for name, kw, n in (("SMA", dict(period=2), 6), ("EMA", dict(period=2), 8), ("RMA", dict(period=2), 8), ("WMA", dict(period=2), 6), ("HMA", dict(period=4), 12)):
         obs.append(Ob(f"live-T2-feed/{name}{kw}/n={n}", dict(spec=["ind", name, kw], n=n, feed="live-T2"), DEF, weight=n * 3, budget_s=300 if tier == "quick" else 2400, max_paths=100000))
+    # a member swapped for one of the same name that reads another input (remove_indicator + add_indicator)
+    for name, kw, n in (("SMA", dict(period=2), 5), ("EMA", dict(period=2), 5), ("WMA", dict(period=2), 5), ("HMA", dict(period=4), 8)):
+        obs.append(Ob(f"swap-input/{name}{kw}/close->open/n={n}", dict(spec=["ind", name, kw], n=n, input="open"), DEF, fn="run_swap", weight=n * 3, budget_s=300))
     return obs
 
 
